@@ -6,7 +6,8 @@ From Coq Require Import String.
 From Coq Require Import List Ascii ZArith Bool.
 From Coq Require Import Floats.PrimFloat Numbers.Cyclic.Int63.Uint63.
 From CGV Require Import Base.PyBase Base.PyVal Base.PyGen Base.NxGraph Sample.GenSupport Gen.SamplerGen Gen.HydroGen
-     Sample.SampleImpl Sample.SampleDefs.
+     Sample.SampleImpl Sample.SampleDefs Sample.SampleFinal.
+From CGV Require Resolve.GraphOps.
 Import ListNotations.
 Open Scope Z_scope.
 
@@ -27,7 +28,10 @@ Definition fconfig := config float.
 (** * one case: the input, and what the implementation did *)
 Inductive outcome :=
 | OExc (cls : pystr) (stage : nat)          (* 0: constructor, 1: growth, 2: hydrogens/finalisation *)
-| ODone (pre : ograph) (post : option ograph) (final : ograph).
+| ODone (pre : graph) (car : option graph) (final : graph).
+(** [pre]: the networkx graph when growth has finished (node and adjacency orders); [car]: the
+    graph right after pysmiles.correct_aromatic_rings inside rebuild_h_atoms (all-atom; transcript);
+    [final]: the returned molecule *)
 
 Definition tables := (list (pystr * float) * list (pystr * list (pystr * float)) * list pystr
                       * list (pystr * float) * list (pystr * list (pystr * Z)))%type.
@@ -322,7 +326,7 @@ Definition prop_fail16 (c : case) : nat :=
   if negb (frags_in_domain (k_frags c)) then 0%nat else
   match k_out c with
   | OExc cls st => chk (exc_outside_domain c cls st) 9
-  | ODone _ _ final => holds_C16 (k_aa c) (k_frags c) (length (k_obs c)) final
+  | ODone _ _ final => holds_C16 (k_aa c) (k_frags c) (length (k_obs c)) (observe final)
   end.
 
 (** ** C17 *)
@@ -405,7 +409,7 @@ Definition prop_fail17 (c : case) : nat :=
   if negb (frags_in_domain (k_frags c)) then 0%nat else
   match k_out c with
   | OExc cls st => chk (exc_outside_domain c cls st) 9
-  | ODone _ _ final => holds_C17 c final
+  | ODone _ _ final => holds_C17 c (observe final)
   end.
 
 (** * correspondence: the Impl model, fed with the recorded indices, against the implementation *)
@@ -426,24 +430,6 @@ Definition init_eqb (cfg : fconfig) (t : tables) : bool :=
   list_eqb (fun x y => str_eqb (fst x) (fst y) && fdict_eqb (snd x) (snd y)) (c_fragreact cfg) f &&
   strs_eqb (c_term cfg) tm && fdict_eqb (c_masses cfg) ms && byb_eqb (c_byb cfg) byb.
 
-(** contract of the hydrogen transcript: the recorded graph after rebuild_h_atoms extends the
-    graph before it: the old nodes first, in order, with unchanged membership / descriptors /
-    element; the new nodes are hydrogens; old edges are kept, new edges join a new node *)
-Definition h_contract (pre post : ograph) : bool :=
-  let n := length (fst pre) in
-  let old := firstn n (fst post) in
-  let new := skipn n (fst post) in
-  list_eqb (fun x y => Z.eqb (fst x) (fst y) &&
-              forallb (fun k => opt_pyval_eqb (aget k (snd x)) (aget k (snd y)))
-                      [S "fragid"; S "fragname"; S "bonding"; S "element"; S "atomname"]) (fst pre) old &&
-  forallb (fun ka => o_is_h (snd ka)) new &&
-  forallb (fun e => let '(u, v, a) := e in
-             match edge_between post u v with
-             | Some a' => opt_pyval_eqb (aget (S "bonding") a) (aget (S "bonding") a')
-             | None => false end) (snd pre) &&
-  Nat.eqb (length (filter (fun e => let '(u, v, _) := e in zs_mem u (map fst (fst pre)) && zs_mem v (map fst (fst pre))) (snd post)))
-          (length (snd pre)).
-
 Definition all_picks (c : case) : list nat := k_picks0 c ++ concat (k_steps c).
 
 Definition corr_ok (c : case) : bool :=
@@ -454,18 +440,18 @@ Definition corr_ok (c : case) : bool :=
       let picks := all_picks c in
       let run := sample_growth float fc0 fadd fltb fisz (list nat) pick_list cfg (k_target c) (Datatypes.S (length picks)) picks (k_start c) in
       match run, k_out c with
-      | Ok (_, i0, m, _, log, rest), ODone pre post final =>
+      | Ok (_, i0, m, _, log, rest), ODone pre car final =>
           match rest with [] => true | _ => false end &&
           list_eqb Nat.eqb i0 (k_picks0 c) &&
           list_eqb (list_eqb Nat.eqb) (map r_picks log) (k_steps c) &&
           list_eqb ob_eqb (map r_ob log) (k_obs c) &&
           strs_eqb (map r_fragname log) (k_added c) &&
-          og_eqb (observe_mol m) pre &&
-          match k_aa c, post with
-          | true, Some p => h_contract pre p &&
-                            match finalise true p with Ok f => og_eqb f final | Err _ => false end
-          | false, None => match finalise false (observe_mol m) with Ok f => og_eqb f final | Err _ => false end
-          | _, _ => false
+          (* the grown molecule, with networkx' node and adjacency orders *)
+          GraphOps.graph_eqb (to_nx m) pre &&
+          (* hydrogens (Hydro model; aromaticity transcript with its contract), sort, names *)
+          match finalise_nx (k_aa c) (to_nx m) car with
+          | Ok f => GraphOps.graph_eqb f final
+          | Err _ => false
           end
       | Ok (_, _, m, _, log, rest), OExc cls (Datatypes.S (Datatypes.S _)) =>
           (* growth finished; pysmiles refused the molecule afterwards *)
